@@ -155,7 +155,7 @@ func c09Case(rt *rapid.T, rec *vt.Rec) {
 	}
 	n := rapid.IntRange(3, 16).Draw(rt, "steps")
 	for k := 0; k < n; k++ {
-		op := rapid.SampledFrom([]string{"connect", "connect", "close", "close", "probe", "closeDuring", "reregDuring", "failedReconnect", "reconnectRace", "advance", "closeDuringConnect", "closeWithStoreFault", "closeWhileOwnRequest"}).Draw(rt, "op")
+		op := rapid.SampledFrom([]string{"connect", "connect", "close", "close", "probe", "closeDuring", "reregDuring", "failedReconnect", "reconnectRace", "advance", "closeDuringConnect", "closeWithStoreFault", "closeWhileOwnRequest", "connectOnExisting", "connectOnExisting"}).Draw(rt, "op")
 		switch op {
 		case "closeWhileOwnRequest":
 			// a host's connection closes while a request that this host itself sent over it is still being served (its
@@ -287,6 +287,26 @@ func c09Case(rt *rapid.T, rec *vt.Rec) {
 				fail("host connect: %v", err)
 			}
 			logf("host %s registers on conn#%d", s.agents[h].id.name, ac.id)
+		case "connectOnExisting":
+			// a host registers again over a connection it already has open - its current one, or an older one that
+			// thereby becomes the most recent registration
+			oc := openConns()
+			if len(oc) == 0 {
+				continue
+			}
+			ac := rapid.SampledFrom(oc).Draw(rt, "existingConn")
+			h := connOwner(ac)
+			cur, isLive := s.model.liveHost(s.agents[h].id.nodeID)
+			s.model.connect(s.agents[h].id.nodeID, ac.id, true, "geth", "")
+			if err := s.connect(h, ac, true, "geth", ""); err != nil {
+				fail("host connect over its open conn#%d: %v", ac.id, err)
+			}
+			if isLive && cur != ac.id {
+				classes["register-back-on-older-connection"] = true
+			} else {
+				classes["register-again-on-current-connection"] = true
+			}
+			logf("host %s registers again on its open conn#%d (current before: conn#%d, live: %v)", s.agents[h].id.name, ac.id, cur, isLive)
 		case "close":
 			oc := openConns()
 			if len(oc) == 0 {
